@@ -14,7 +14,7 @@ one public call (delete / insert / pop / clear).  Clauses checked per case:
                  RuntimeError / IndexError
   step-garbage   a step yielded something that never was an entry
   mutation-result the mutation's own result differs from the reference map's
-  damage/checker walker, _check(), BTrees.check.check() afterwards
+  damage/checker walker, _check() (thorough tier: + BTrees.check.check()) afterwards
   contents       contents / len afterwards == reference map driven by the mutations
 Cases run in child processes (harness.run_batches), one per (container, view).
 """
@@ -42,8 +42,9 @@ def views(kind):
               ("itervalues", ("it", lambda t, K: t.itervalues(), None, "v")),
               ("iteritems(min,max)", ("it", lambda t, K: t.iteritems(K[1], K[-2]), None, "i"))]
     if tree:
-        v += [("iter(keys(min))", ("it", lambda t, K: iter(t.keys(K[1])), None, "k")),
-              ("keys[desc]", ("ix", lambda t, K: t.keys(), (3, 2, 1, 0), "k")),
+        if not mapping:                    # C sets have no iterkeys(); for mappings it is the same C path as iterkeys(min)
+            v += [("iter(keys(min))", ("it", lambda t, K: iter(t.keys(K[1])), None, "k"))]
+        v += [("keys[desc]", ("ix", lambda t, K: t.keys(), (3, 2, 1, 0), "k")),
               ("keys[asc]", ("ix", lambda t, K: t.keys(), (0, 1, 2, 3), "k")),
               ("keys(min)[zig]", ("ix", lambda t, K: t.keys(K[1]), (2, 0, 3, 1), "k"))]
         if mapping:
@@ -121,7 +122,7 @@ def run_case(cls, kind, sizes, K, vals, how, word, pkg_check):
         else:
             t[k] = vals[0]
             ref.d[k] = vals[0]
-    ever = set(ref.items())
+    ever = set(ref.d.items())
     obj = how[1](t, K)
     nstep, outcomes, lastop = 0, [], "none"
     for x in word:
@@ -145,7 +146,7 @@ def run_case(cls, kind, sizes, K, vals, how, word, pkg_check):
             r_imp = H.apply_impl(t, x)
             if not H.same_result(r_imp, r_ref):
                 return "mutation-result", "%r returned %r, reference %r" % (x, r_imp, r_ref), lastop, outcomes
-            ever.update(ref.items())
+            ever.update(ref.d.items())
     # afterwards: sound, exactly the contents implied by the mutations
     try:
         if kind in ("BTree", "TreeSet"):
@@ -153,7 +154,8 @@ def run_case(cls, kind, sizes, K, vals, how, word, pkg_check):
             if c != ref.contents():
                 return "contents", "walk yields %r, reference %r" % (c, ref.contents()), lastop, outcomes
             t._check()
-            pkg_check(t)
+            if pkg_check:
+                pkg_check(t)
         c = H.contents(t, is_set)
         if c != ref.contents() or len(t) != len(ref.d):
             return "contents", "contents %r len %d, reference %r" % (c, len(t), ref.contents()), lastop, outcomes
@@ -166,6 +168,11 @@ def run_case(cls, kind, sizes, K, vals, how, word, pkg_check):
     return None, "", lastop, outcomes
 
 
+def show(word):
+    """json-able word: 'S' or [op name, repr(arg)...]."""
+    return [x if x == "S" else [x[0]] + [repr(a) for a in x[1:]] for x in word]
+
+
 def was_entry(e, ever, yields):
     """`ever` holds every (key, value) pair present at some time since the view
     was created; a step yields a key, a value or an item of it."""
@@ -176,7 +183,9 @@ def was_entry(e, ever, yields):
 def child():
     spec = json.load(sys.stdin)
     fam, kind, impl, sizes, vname = spec["fam"], spec["kind"], spec["impl"], spec["sizes"], spec["view"]
-    from BTrees.check import check as pkg_check
+    pkg_check = None
+    if H.tier() != "quick":          # BTrees.check.check repeats the walk; thorough tier only
+        from BTrees.check import check as pkg_check
     cls = H.get_class(fam, kind, impl, *(sizes if sizes else (None, None)))
     how = dict(views(kind))[vname]
     U, K = universe(fam)
@@ -198,7 +207,7 @@ def child():
         if bad:
             nfail += 1
             print(json.dumps({"clause": bad, "detail": detail, "op": op, "case": idx,
-                              "word": [x if x == "S" else list(map(repr, x)) for x in w]}), flush=True)
+                              "word": show(w)}), flush=True)
             if nfail >= 6:
                 break
     print(json.dumps({"done": True, "evals": evals, "nontrivial": nontriv, "signatures": len(sigs)}), flush=True)
@@ -208,7 +217,7 @@ def script_for(spec, word):
     return ("from rtc import iter_rt as I, harness as H\nfrom BTrees.check import check\n"
             "spec=%r\nword=%r\n"
             "cls=H.get_class(spec['fam'],spec['kind'],spec['impl'],*(spec['sizes'] or (None,None)))\n"
-            "w=tuple(x if x=='S' else tuple(eval(a) for a in x) for x in word)\n"
+            "w=tuple(x if x=='S' else (x[0],)+tuple(eval(a) for a in x[1:]) for x in word)\n"
             "print(I.run_case(cls,spec['kind'],spec['sizes'],I.universe(spec['fam'])[1],H.values_of(spec['fam']),"
             "dict(I.views(spec['kind']))[spec['view']],w,check))\n" % (spec, word))
 
@@ -269,7 +278,7 @@ def main():
             if wl is None:   # regenerate the words of this batch to name the crashing one
                 rng = random.Random("%s:%s:%s:%s:%s:%s" % (H.seed(), sp["fam"], sp["kind"], sp["impl"], sp["sizes"], sp["view"]))
                 wl = list(words(sp["fam"], sp["kind"], rng, n_random))
-            w = [x if x == "S" else list(map(repr, x)) for x in wl[c["case"]]]
+            w = show(wl[c["case"]])
             what = "hang" if c["rc"] == "timeout" else "crash"
             s.failures.append(Failure(
                 key="iter:%s:%s:%s:%s" % (sp["impl"], sp["kind"], what, sp["view"]),
